@@ -172,6 +172,7 @@ def run_mc(module, cfg, tier, workers=NCPU, timeout=1500, extra=()):
         res["depth"] = int(m.group(1))
     res["violated"] = re.findall(r"(?:Action property|Invariant|Temporal property) (\S+) (?:is|was) violated", out)
     res["ok"] = "No error has been found" in out
+    res["reached"] = sorted(set(re.findall(r"REACH (\w+)", out)))   # vacuity guard of the model (MCStaking.ReachStep)
     res["full"] = out
     return res
 
